@@ -49,6 +49,27 @@
 (* The transcription state is advanced the same way (previous QPS = tokens *)
 (* admitted in the shifted 1 s view) and reported with a mismatch.         *)
 (*                                                                         *)
+(* RELOADS (flow.LoadRules / LoadRulesOfResource in the middle of the      *)
+(* history):                                                               *)
+(*   reload t, tn, td, p, c, cb, q   the rule is replaced at t (ms)        *)
+(* An identical rule changes nothing (its state is kept: C14).  A changed  *)
+(* rule opens a new EPOCH; the clauses are restated for the rule in force  *)
+(* (WarmUpOps, "a rule REPLACED under traffic"):                           *)
+(*   E1 / E2 count the tokens admitted since the reload, against the NEW   *)
+(*      threshold / cold cap (idle seconds are a fact about the demand and *)
+(*      are counted across the reload)                                     *)
+(*   E3 / E4 count saturated / starved seconds from the reload             *)
+(*   E5 (epochs after a reload only) the window never exceeds ProgCap:     *)
+(*      what the history of the resource justifies - progress ju / LC =    *)
+(*      the fraction the old rule was justified to have reached, plus      *)
+(*      1/period for every second with an admission since (the second      *)
+(*      before the reload included), or the absolute rate the old rule was *)
+(*      justified to serve; 0 again after IdleEnough idle seconds.  A      *)
+(*      fresh (cold) start and a proportional carry-over both pass; the    *)
+(*      full new threshold at once after cold traffic only does not.       *)
+(* Transcription: the changed rule gets a fresh calculator (no tokens,     *)
+(* never synchronised) and keeps the statistic.                            *)
+(*                                                                         *)
 (* CONFORMANCE (reported as a DRIFT line, never a verdict): every decision *)
 (* equals the decision of the rational transcription WarmUpOps, either     *)
 (* decision being accepted when cur + b equals the rational threshold.     *)
@@ -69,9 +90,13 @@ VARIABLES
     stored, lastSync,    \* transcription state
     la,         \* throttling: time of the last admission (microseconds; -1: none)
     dfrom, dlast,        \* throttling: the current run of saturating demand began at dfrom and reaches dlast (-1: none)
+    eref,       \* admitted tokens since the last changing reload (= ref before any reload)
+    ep,         \* epoch of the rule in force: [n reloads so far, s aligned second of the reload, lo first second that counts
+                \* for E3 / E4, base tokens admitted in second s before the reload, ju / LC justified progress at the start of
+                \* second js, ra justified absolute rate carried over]
     g, failed, drifted
 
-tvars == <<l, now, cfg, ref, secs, sos, stored, lastSync, la, dfrom, dlast, g, failed, drifted>>
+tvars == <<l, now, cfg, ref, secs, sos, stored, lastSync, la, dfrom, dlast, eref, ep, g, failed, drifted>>
 
 Ev == Trace[l]
 Has(r, f) == f \in DOMAIN r
@@ -92,8 +117,21 @@ SecAt(s) == IF s \in DOMAIN secs THEN secs[s] ELSE NoSec
 Is(x, kind) == CASE kind = "idle"   -> x.req1 = 0 /\ x.blk = 0 /\ x.adm = 0
                   [] kind = "sat"    -> x.blk > 0
                   [] kind = "starve" -> x.req1 > 0 /\ x.adm = 0
-RECURSIVE RunBack(_, _, _)
-RunBack(s, lim, kind) == IF lim = 0 \/ s < 0 \/ ~Is(SecAt(s), kind) THEN 0 ELSE 1 + RunBack(s - 1000, lim - 1, kind)
+RECURSIVE RunBackLo(_, _, _, _)
+RunBackLo(s, lim, kind, lo) == IF lim = 0 \/ s < lo \/ ~Is(SecAt(s), kind) THEN 0 ELSE 1 + RunBackLo(s - 1000, lim - 1, kind, lo)
+RunBack(s, lim, kind) == RunBackLo(s, lim, kind, IF kind = "idle" THEN 0 ELSE ep.lo)    \* (sat / starve: since the reload)
+
+\* ---- justified warm-up progress (WarmUpOps!ProgCap), in units of 1/LC ----
+LC == 60                                  \* every period of a trace with reloads divides LC
+NoEpoch == [n |-> 0, s |-> 0, lo |-> 0, base |-> 0, ju |-> 0, js |-> 0, ra |-> RZero]
+Credit(c) == IF LC % c.p = 0 THEN LC \div c.p ELSE LC            \* (a period that does not divide LC: everything is justified)
+\* progress justified at the start of aligned second S: fold the seconds js <= s < S that admitted something
+BusySecs(a, b) == Cardinality({ s \in DOMAIN secs : s >= a /\ s < b /\ secs[s].adm > 0 })
+JuAt(S) == IF RunBackLo(S - 1000, IdleEnough(cfg), "idle", 0) >= IdleEnough(cfg) THEN 0
+           ELSE Min2(LC, ep.ju + BusySecs(ep.js, S) * Credit(cfg))
+RaAt(S) == IF RunBackLo(S - 1000, IdleEnough(cfg), "idle", 0) >= IdleEnough(cfg) THEN RZero ELSE ep.ra
+\* tokens admitted in aligned second S before the reload (throttling traces count per aligned second)
+BaseAt(S) == IF ep.n > 0 /\ S = ep.s THEN ep.base ELSE 0
 
 TNew ==
     /\ IsEvent("new")
@@ -103,6 +141,7 @@ TNew ==
     /\ ref' = << >> /\ secs' = << >> /\ sos' = TRUE
     /\ stored' = 0 /\ lastSync' = -1
     /\ la' = -1 /\ dfrom' = -1 /\ dlast' = -1
+    /\ eref' = << >> /\ ep' = NoEpoch
     /\ g' = [tr |-> Ev.tr]
     /\ failed' = FALSE /\ drifted' = FALSE
 
@@ -111,15 +150,40 @@ TTick ==
     /\ Ev.t >= now
     /\ now' = Ev.t
     /\ ref' = Prune(ref, BL, 2 * IV, Ev.t)
+    /\ eref' = Prune(eref, BL, 2 * IV, Ev.t)
+    \* (fold the progress before old seconds are forgotten)
+    /\ ep' = [ep EXCEPT !.ju = JuAt(Align(Ev.t, 1000)), !.js = Align(Ev.t, 1000), !.ra = RaAt(Align(Ev.t, 1000))]
     /\ secs' = [s \in { x \in DOMAIN secs : x >= Align(Ev.t, 1000) - 1000 * (4 * cfg.p + 12) } |-> secs[s]]
     /\ UNCHANGED <<cfg, sos, stored, lastSync, la, dfrom, dlast, g, failed, drifted>>
+
+\* the rule is replaced (LoadRules / LoadRulesOfResource)
+TReload ==
+    /\ IsEvent("reload")
+    /\ Ev.t >= now /\ now' = Ev.t
+    /\ LET c2 == [tn |-> Ev.tn, td |-> Ev.td, p |-> Ev.p, c |-> Ev.c, cb |-> Ev.cb, q |-> Ev.q]
+           S  == Align(Ev.t, 1000)
+           ju == JuAt(S)
+           \* the demand of the second before the reload counts for the new rule as well
+           recent == SecAt(S).adm > 0 \/ SecAt(S - 1000).adm > 0
+       IN  IF c2 = cfg
+           THEN UNCHANGED <<cfg, ref, secs, sos, stored, lastSync, la, dfrom, dlast, eref, ep>>      \* identical: state kept
+           ELSE /\ cfg' = c2
+                /\ ep' = [n |-> ep.n + 1, s |-> S, lo |-> IF S \in DOMAIN secs THEN S + 1000 ELSE S, base |-> SecAt(S).adm,
+                          ju |-> Min2(LC, ju + (IF recent THEN Credit(c2) ELSE 0)), js |-> S,
+                          ra |-> ProgRate(cfg, ju, LC, RaAt(S))]
+                /\ eref' = << >>
+                /\ stored' = 0 /\ lastSync' = -1                 \* fresh calculator
+                /\ la' = -1 /\ dfrom' = -1 /\ dlast' = -1         \* fresh checker
+                /\ UNCHANGED <<ref, secs, sos>>
+    /\ UNCHANGED <<g, failed, drifted>>
 
 TReq ==
     /\ IsEvent("req")
     /\ ~Throttled(cfg)
     /\ LET S    == Align(now, 1000)
            b    == Ev.b
-           cur  == RefSum(ref, BL, now, IV, "pass")             \* tokens in the aligned window right now
+           cur  == RefSum(eref, BL, now, IV, "pass")            \* tokens in the aligned window right now (admitted under the rule in force)
+           curAll == RefSum(ref, BL, now, IV, "pass")           \* ... all of them: what the statistic of the rule holds
            \* --- transcription ---
            sync == S > lastSync
            prev == RefPrevSum(ref, BL, now, BL, IV, "pass")
@@ -137,25 +201,31 @@ TReq ==
            E2 == cold => (cur + b) <= ColdCap(cfg)
            E3 == ~(sos2 /\ satRun >= WarmEnough(cfg) /\ (cur + b) * cfg.td <= cfg.tn)
            E4 == ~(b = 1 /\ cfg.tn >= cfg.td /\ starveRun >= StarveBound(cfg))
-           why == IF Ev.ok THEN (IF ~E1 THEN "E1-above-threshold" ELSE "E2-not-cold-after-idle")
+           cap == ProgCap(cfg, JuAt(S), LC, RaAt(S))
+           E5 == ep.n > 0 => (cur + b) <= cap
+           why == IF Ev.ok THEN (IF ~E1 THEN "E1-above-threshold" ELSE IF ~E2 THEN "E2-not-cold-after-idle"
+                                 ELSE "E5-warmer-than-the-history-justifies")
                            ELSE (IF ~E3 THEN "E3-not-warm-after-sustained-demand" ELSE "E4-starved")
            mine == [req1 |-> me.req1 + (IF b = 1 THEN 1 ELSE 0),
                     blk  |-> me.blk + (IF Ev.ok THEN 0 ELSE 1),
                     adm  |-> me.adm + (IF Ev.ok THEN b ELSE 0)]
        IN
-       /\ Judge(IF Ev.ok THEN E1 /\ E2 ELSE E3 /\ E4,
+       /\ Judge(IF Ev.ok THEN E1 /\ E2 /\ E5 ELSE E3 /\ E4,
                 [why |-> why, window |-> cur, b |-> b, T |-> <<cfg.tn, cfg.td>>, coldcap |-> ColdCap(cfg), cold |-> cold,
-                 satRun |-> satRun, starveRun |-> starveRun, model_allowed |-> <<al.n, al.d>>, model_tokens |-> st])
+                 satRun |-> satRun, starveRun |-> starveRun, model_allowed |-> <<al.n, al.d>>, model_tokens |-> st]
+                @@ (IF ep.n > 0 THEN [epoch |-> ep.n, rule |-> <<cfg.tn, cfg.td, cfg.p, cfg.c, cfg.cb>>, progcap |-> cap,
+                                      progress |-> <<JuAt(S), LC>>, carried_rate |-> <<RaAt(S).n, RaAt(S).d>>] ELSE << >>))
        /\ Drift(IF ~Defined(al) THEN Ev.ok
-                ELSE IF OnEdge(al, cur, b) THEN TRUE
-                ELSE Ev.ok = ~Blocks(al, cur, b),
-                [window |-> cur, b |-> b, model_allowed |-> <<al.n, al.d>>, model_tokens |-> st, prev |-> prev, gap |-> gap])
+                ELSE IF OnEdge(al, curAll, b) THEN TRUE
+                ELSE Ev.ok = ~Blocks(al, curAll, b),
+                [window |-> curAll, b |-> b, model_allowed |-> <<al.n, al.d>>, model_tokens |-> st, prev |-> prev, gap |-> gap])
        /\ stored' = st
        /\ lastSync' = IF sync THEN S ELSE lastSync
        /\ ref' = IF Ev.ok THEN RefAdd(ref, PK, BL, now, "pass", b) ELSE ref
+       /\ eref' = IF Ev.ok THEN RefAdd(eref, PK, BL, now, "pass", b) ELSE eref
        /\ secs' = [s \in DOMAIN secs \cup {S} |-> IF s = S THEN mine ELSE secs[s]]
        /\ sos' = sos2
-    /\ UNCHANGED <<now, cfg, la, dfrom, dlast, g>>
+    /\ UNCHANGED <<now, cfg, la, dfrom, dlast, ep, g>>
 
 ---------------------------------------------------------------------------
 (* throttling rules *)
@@ -184,7 +254,7 @@ TPReq ==
            ta   == t + Ev.w                              \* admission time
            tams == ta \div 1000
            SA   == Align(tams, 1000)
-           cur  == SecAt(SA).adm                         \* admitted so far in the aligned second of the admission
+           cur  == SecAt(SA).adm - BaseAt(SA)            \* admitted so far (under the rule in force) in the aligned second of the admission
            st   == PSync(tms)
            al   == Allowed(cfg, st)
            waited == ~Ev.ok \/ Ev.w > 0                  \* the request found the rule busy
@@ -199,7 +269,10 @@ TPReq ==
            E3a == (warm /\ Ev.w > 0) => (la >= 0 /\ NotAfter(cfg, ta - la))
            E3r == warm => (cfg.tn < cfg.td \/ (la >= 0 /\ Within(cfg, t - la)))
            E4 == ~(cfg.tn >= cfg.td /\ starveRun >= StarveBound(cfg))
+           cap == ProgCap(cfg, JuAt(SA), LC, RaAt(SA))
+           E5 == ep.n > 0 => (cur + 1) <= cap
            why == IF Ev.ok THEN (IF ~E1 THEN "E1-above-threshold" ELSE IF ~E2 THEN "E2-not-cold-after-idle"
+                                 ELSE IF ~E5 THEN "E5-warmer-than-the-history-justifies"
                                  ELSE "E3-not-warm-after-sustained-demand")
                            ELSE (IF ~E3r THEN "E3-not-warm-after-sustained-demand" ELSE "E4-starved")
            upd(s) == [req1 |-> SecAt(s).req1 + (IF s = S THEN 1 ELSE 0),
@@ -207,10 +280,12 @@ TPReq ==
                       adm  |-> SecAt(s).adm + (IF s = SA /\ Ev.ok THEN 1 ELSE 0)]
        IN
        /\ Ev.w >= 0 /\ tms >= now
-       /\ Judge(IF Ev.ok THEN E1 /\ E2 /\ E3a ELSE E3r /\ E4,
+       /\ Judge(IF Ev.ok THEN E1 /\ E2 /\ E5 /\ E3a ELSE E3r /\ E4,
                 [why |-> why, window |-> cur, b |-> 1, T |-> <<cfg.tn, cfg.td>>, coldcap |-> ColdCap(cfg), cold |-> cold,
                  satRun |-> satRun, starveRun |-> starveRun, model_allowed |-> <<al.n, al.d>>, model_tokens |-> st,
-                 t |-> t, w |-> Ev.w, last_admission |-> la, q |-> cfg.q])
+                 t |-> t, w |-> Ev.w, last_admission |-> la, q |-> cfg.q]
+                @@ (IF ep.n > 0 THEN [epoch |-> ep.n, rule |-> <<cfg.tn, cfg.td, cfg.p, cfg.c, cfg.cb>>, progcap |-> cap,
+                                      progress |-> <<JuAt(SA), LC>>] ELSE << >>))
        /\ stored' = st
        /\ lastSync' = Max2(lastSync, S)
        /\ ref' = IF Ev.ok THEN RefAdd(ref, PK, BL, tams, "pass", 1) ELSE ref
@@ -218,7 +293,8 @@ TPReq ==
        /\ la' = IF Ev.ok THEN ta ELSE la
        /\ dfrom' = df
        /\ dlast' = IF waited THEN (IF Ev.ok THEN ta ELSE t) ELSE (IF onTime THEN t ELSE -1)
-    /\ UNCHANGED <<now, cfg, sos, g, drifted>>
+       /\ eref' = IF Ev.ok THEN RefAdd(eref, PK, BL, tams, "pass", 1) ELSE eref
+    /\ UNCHANGED <<now, cfg, sos, ep, g, drifted>>
 
 TPRej ==
     /\ IsEvent("prej")
@@ -250,11 +326,11 @@ TPRej ==
        /\ secs' = [s \in DOMAIN secs \cup {S} |-> IF s = S THEN mine ELSE secs[s]]
        /\ dfrom' = df
        /\ dlast' = t1
-    /\ UNCHANGED <<now, cfg, ref, sos, la, g, drifted>>
+    /\ UNCHANGED <<now, cfg, ref, sos, la, eref, ep, g, drifted>>
 
 TInit == /\ l = 1 /\ now = 0 /\ cfg = [tn |-> 1, td |-> 1, p |-> 1, c |-> 3, cb |-> 0, q |-> 0] /\ ref = << >> /\ secs = << >> /\ sos = TRUE
-         /\ stored = 0 /\ lastSync = -1 /\ la = -1 /\ dfrom = -1 /\ dlast = -1
+         /\ stored = 0 /\ lastSync = -1 /\ la = -1 /\ dfrom = -1 /\ dlast = -1 /\ eref = << >> /\ ep = NoEpoch
          /\ g = [tr |-> 0] /\ failed = FALSE /\ drifted = FALSE
-TNext == TNew \/ TTick \/ TReq \/ TPReq \/ TPRej
+TNext == TNew \/ TTick \/ TReload \/ TReq \/ TPReq \/ TPRej
 TSpec == TInit /\ [][TNext]_tvars
 =============================================================================
